@@ -489,6 +489,10 @@ func (c *EvalCtx) bindingTerm(name string, b *binding) string {
 	}
 	if b.loc != nil {
 		if c.inOld {
+			if b.loc.kind == lHeap && c.old != nil {
+				// a captured variable: its cell already existed in the old state
+				return c.x.load(c.fr, c.old, b.loc)
+			}
 			c.fail("local variable %s inside old()", name)
 		}
 		return c.x.load(c.fr, c.st, b.loc)
@@ -1065,6 +1069,8 @@ func (c *EvalCtx) funcValue(e ast.Expr) string {
 	return fmt.Sprintf("(%s %s)", fn, strings.Join(args, " "))
 }
 
+func n2args(n *ast.CallExpr) []ast.Expr { return n.Args }
+
 // inlineCall evaluates a call to a real (loop-free) Go function inside a
 // contract expression by executing its SSA body in the evaluation state.
 func (c *EvalCtx) inlineCall(fo *types.Func, n *ast.CallExpr, rt types.Type) (string, types.Type) {
@@ -1091,6 +1097,26 @@ func (c *EvalCtx) inlineCall(fo *types.Func, n *ast.CallExpr, rt types.Type) (st
 			// interface method in a contract: its ghost view, if declared
 			if gf := eng.ghostViewFor(rtyp, fo.Name()); gf != "" {
 				return c.ghostField(gf, recv), rt
+			}
+			// deterministic interface method: the same function symbol the call rule uses
+			if nt, ok := types.Unalias(rtyp).(*types.Named); ok && nt.Obj().Pkg() != nil {
+				ict := eng.db.Funcs[nt.Obj().Pkg().Path()+" iface "+nt.Obj().Name()+"."+fo.Name()]
+				if ict == nil {
+					ict = eng.db.Funcs["iface "+nt.Obj().Pkg().Path()+"."+nt.Obj().Name()+"."+fo.Name()]
+				}
+				if ict != nil && ict.Deterministic && sig.Results().Len() == 1 {
+					vc := c.x.vc
+					name := fmt.Sprintf("det_%s_%d", sanitize(ict.Key), 0)
+					sorts := []string{vc.sortOf(rtyp)}
+					ats := []string{recv}
+					for i, a := range n2args(n) {
+						t, _ := c.expr(a)
+						sorts = append(sorts, vc.sortOf(sig.Params().At(i).Type()))
+						ats = append(ats, t)
+					}
+					vc.uf(name, sorts, vc.sortOf(sig.Results().At(0).Type()))
+					return fmt.Sprintf("(%s %s)", name, strings.Join(ats, " ")), rt
+				}
 			}
 			c.fail("call of interface method %s in contract (declare a ghost view)", fo.Name())
 		}
@@ -1128,7 +1154,11 @@ func (c *EvalCtx) inlineCall(fo *types.Func, n *ast.CallExpr, rt types.Type) (st
 		args = append(args, Val{T: t})
 	}
 	st := c.state().clone()
+	// specification-level evaluation must not leave assumptions behind (e.g.
+	// "receiver is non-nil" from the callee's field accesses): run it quietly
+	c.x.vc.quiet++
 	res := c.x.inline(c.fr, st, fn, args, nil, nil, true)
+	c.x.vc.quiet--
 	if res.Tup != nil {
 		c.fail("multi-value call in contract")
 	}
